@@ -270,6 +270,9 @@ pub fn run_all(ctx: &Ctx, prop: &'static str, fork: Fork, periods: &[usize], tup
             cont.push(Op::S(-0.0));
             cont.push(Op::S(-5.0));
         }
+        if fork != Fork::Reset {
+            cont.push(Op::Reset);
+        }
         let r = lifecycle_graph(ctx, prop, cfg, &alphabet, &cont, fork, max_states, max_depth, &mut out);
         out.stats.sample(|| format!("{} {:?} graph over {} symbols: {} states, depth {}, fixpoint {}", cfg.descr(), fork, alphabet.len(), r.states, r.depth, r.fixpoint));
         (out, r)
